@@ -14,30 +14,30 @@ import (
 
 // CaseResult is the outcome of one shape case of one harness.
 type CaseResult struct {
-	Harness    string
-	Shape      []string
-	Verdict    string // "pass", "violation", "inconclusive", "known"
-	Reason     string
-	Violations []*ViolationInfo
-	Obligations int
-	Discharged  int
-	Covers      int
-	CoversSat   int
-	CoverIDs    []string
-	Unwinds     int
-	UnwindsOK   bool
-	Queries     map[string]int // verdict -> count
-	SolverSec   float64
-	ExecSec     float64
-	Funcs       map[string]int
-	Stubs       map[string]int
-	Notes       []string
-	Inputs      int
-	Events      []int
-	Rounds      int
-	Nodes       int
-	Sample      map[string]interface{}
-	Hints       int
+	Harness       string
+	Shape         []string
+	Verdict       string // "pass", "violation", "inconclusive", "known"
+	Reason        string
+	Violations    []*ViolationInfo
+	Obligations   int
+	Discharged    int
+	Covers        int
+	CoversSat     int
+	CoverIDs      []string
+	Unwinds       int
+	UnwindsOK     bool
+	Queries       map[string]int // verdict -> count
+	SolverSec     float64
+	ExecSec       float64
+	Funcs         map[string]int
+	Stubs         map[string]int
+	Notes         []string
+	Inputs        int
+	Events        []int
+	Rounds        int
+	Nodes         int
+	Sample        map[string]interface{}
+	Hints         int
 	ObligationIDs map[string]int
 }
 
@@ -59,28 +59,27 @@ type InputVal struct {
 
 type RunOpts struct {
 	Opts
-	Rounds    int
-	Solver    string // primary backend
-	Alt       string // secondary backend (cross-check / fallback)
-	TimeoutMs int
-	CrossCheck bool
+	Rounds         int
+	Solver         string // primary backend
+	Alt            string // secondary backend (cross-check / fallback)
+	TimeoutMs      int
+	CrossCheck     bool
 	KnownPredicate func(id string) bool
 }
 
 // RunCase executes a harness under a fixed shape assignment. Returns a *ShapeRequest when the
 // harness asks for an unassigned shape variable.
-func RunCase(prog *ssa.Program, pkg *ssa.Package, harness string, shape map[string]int, ro RunOpts, s1, s2 *smt.Solver) (res *CaseResult, req *ShapeRequest, err error) {
+func RunCase(prog *ssa.Program, pkg *ssa.Package, harness string, shape map[string]int, ro RunOpts, solvers []*smt.Solver) (res *CaseResult, req *ShapeRequest, err error) {
 	e := NewEngine(prog, pkg, ro.Opts)
 	e.Rounds = ro.Rounds
 	for k, v := range shape {
 		e.Shape[k] = v
 	}
 	if ro.Opts.PruneTimeout > 0 {
-		e.Solver = s1
+		e.Solver = solvers[0]
 	}
-	s1.Reset()
-	if s2 != nil {
-		s2.Reset()
+	for _, s := range solvers {
+		s.Reset()
 	}
 	res = &CaseResult{Harness: harness, Queries: map[string]int{}, Funcs: map[string]int{}, Stubs: map[string]int{}, ObligationIDs: map[string]int{}}
 	t0 := time.Now()
@@ -151,25 +150,14 @@ func RunCase(prog *ssa.Program, pkg *ssa.Package, harness string, shape map[stri
 		}
 		return c.Uge(t.Cs[len(t.Cs)-1], c.BV(uint64(ev), t.Cs[0].W))
 	}
+	tmo := ro.TimeoutMs
 	check := func(asserts []smt.Term, want []smt.Term) (smt.Result, map[string]uint64) {
 		all := append(append([]smt.Term{}, base...), asserts...)
-		r, m, er := s1.Check(all, want, ro.TimeoutMs)
-		if er != nil {
-			res.Notes = append(res.Notes, "solver: "+er.Error())
-		}
-		if r == smt.Unknown && s2 != nil {
-			r, m, er = s2.Check(all, want, ro.TimeoutMs)
-			if er != nil {
-				res.Notes = append(res.Notes, "solver2: "+er.Error())
-			}
-		} else if ro.CrossCheck && s2 != nil && r != smt.Unknown {
-			r2, _, _ := s2.Check(all, nil, ro.TimeoutMs)
-			if r2 != smt.Unknown && r2 != r {
-				res.Notes = append(res.Notes, fmt.Sprintf("SOLVER DISAGREEMENT %s=%s %s=%s", s1.B.Name, r, s2.B.Name, r2))
-				r = smt.Unknown
-			}
-		}
+		r, m, who := Race(solvers, all, want, tmo, ro.CrossCheck, &res.Notes)
 		res.Queries[r.String()]++
+		if who != "" {
+			res.Queries["by:"+who]++
+		}
 		return r, m
 	}
 
@@ -194,7 +182,9 @@ func RunCase(prog *ssa.Program, pkg *ssa.Package, harness string, shape map[stri
 			conds = append(conds, c.And(o.Cond, reached(o.Thread, o.EvIdx)))
 		}
 		any := c.Or(conds...)
+		tmo = ro.TimeoutMs / 3
 		r, _ := check([]smt.Term{any}, nil)
+		tmo = ro.TimeoutMs
 		switch r {
 		case smt.Unsat:
 			res.Discharged = len(e.Obls)
@@ -302,9 +292,8 @@ func RunCase(prog *ssa.Program, pkg *ssa.Package, harness string, shape map[stri
 			}
 		}
 	}
-	res.SolverSec = s1.Seconds
-	if s2 != nil {
-		res.SolverSec += s2.Seconds
+	for _, sv := range solvers {
+		res.SolverSec += sv.Seconds
 	}
 	res.Nodes = c.NumNodes()
 	switch {
@@ -393,4 +382,71 @@ func (e *Engine) runInit(st *State) {
 	// execute the init function block by block, skipping calls to other packages' init
 	e.callFunction(st, initFn, nil, nil, "init")
 	_ = types.Typ
+}
+
+// Race asks every solver concurrently and returns the first definite answer; the others are
+// interrupted. With cross=true it waits for a second definite answer and reports disagreement
+// as Unknown.
+func Race(solvers []*smt.Solver, asserts []smt.Term, want []smt.Term, timeoutMs int, cross bool, notes *[]string) (smt.Result, map[string]uint64, string) {
+	if len(solvers) == 1 {
+		r, m, err := solvers[0].Check(asserts, want, timeoutMs)
+		if err != nil {
+			*notes = append(*notes, "solver: "+err.Error())
+		}
+		return r, m, solvers[0].B.Name
+	}
+	type ans struct {
+		r   smt.Result
+		m   map[string]uint64
+		err error
+		i   int
+	}
+	ch := make(chan ans, len(solvers))
+	for i, s := range solvers {
+		go func(i int, s *smt.Solver) {
+			r, m, err := s.Check(asserts, want, timeoutMs)
+			ch <- ans{r, m, err, i}
+		}(i, s)
+	}
+	var first *ans
+	got := 0
+	need := 1
+	if cross {
+		need = 2
+	}
+	definite := 0
+	var res ans
+	res.r = smt.Unknown
+	interrupted := false
+	for got < len(solvers) {
+		a := <-ch
+		got++
+		if a.err != nil && !interrupted {
+			*notes = append(*notes, "solver "+solvers[a.i].B.Name+": "+a.err.Error())
+		}
+		if a.r != smt.Unknown && !interrupted {
+			definite++
+			if first == nil {
+				aa := a
+				first = &aa
+				res = a
+			} else if a.r != first.r {
+				*notes = append(*notes, fmt.Sprintf("SOLVER DISAGREEMENT %s=%s %s=%s", solvers[first.i].B.Name, first.r, solvers[a.i].B.Name, a.r))
+				res.r = smt.Unknown
+			}
+			if definite >= need && !interrupted {
+				interrupted = true
+				for j, s := range solvers {
+					if j != a.i && (first == nil || j != first.i) {
+						s.Interrupt()
+					}
+				}
+			}
+		}
+	}
+	who := ""
+	if first != nil {
+		who = solvers[first.i].B.Name
+	}
+	return res.r, res.m, who
 }
